@@ -613,6 +613,10 @@ fn gen_info_file(kind: &str, n: usize) -> Vec<u8> {
             f.extend_from_slice(b"mdat");
             f.extend_from_slice(&(16u64 + 5).to_be_bytes());
             f.extend_from_slice(&[9, 8, 7, 6, 5]);
+            // a header-only box in the 64-bit form (largesize = 16, its own header)
+            f.extend_from_slice(&1u32.to_be_bytes());
+            f.extend_from_slice(b"free");
+            f.extend_from_slice(&16u64.to_be_bytes());
             for _ in 0..n {
                 f.extend(bx(b"free", &[]));
             }
